@@ -7,9 +7,12 @@ package main
 
 import (
 	"fmt"
+	"net"
+	"net/http"
 	"os"
 	"os/exec"
 	"strings"
+	"sync/atomic"
 	"syscall"
 	"testing"
 	"time"
@@ -128,4 +131,116 @@ func TestVerifToFileGzipLevelBin(t *testing.T) {
 		fmt.Printf("GZLEVEL level=%s started=%v exit=%d response=%s\n", level, started, code, strings.Fields(resp + " -")[0])
 		src.Down()
 	}
+}
+
+// TestVerifToFileMainBin: the start-up checks of main() on the real binary: generated argument vectors; "started" is
+// observed positively (SUB at the stub nsqd, or an HTTP request at the stub lookupd), "refused" = exit code 1 before.
+func TestVerifToFileMainBin(t *testing.T) {
+	bin := os.Getenv("VF_E8_TOFILE_BIN")
+	if bin == "" || os.Getenv("VF_E8_CASE") != "" {
+		t.Skip("needs the nsq_to_file binary; parent only")
+	}
+	r := vfNewRand(0xE8B1)
+	n := vfEnvInt("VERIF_N", 36)
+	out := vfOpen("tfmain")
+	defer out.Close()
+	for i := 0; i < n; i++ {
+		root := t.TempDir()
+		src := vfNewStubNsqd()
+		var hits int32
+		ln, err := net.Listen("tcp", "127.0.0.1:0")
+		if err != nil {
+			t.Fatal(err)
+		}
+		go http.Serve(ln, http.HandlerFunc(func(w http.ResponseWriter, req *http.Request) {
+			atomic.AddInt32(&hits, 1)
+			w.Header().Set("X-NSQ-Content-Type", "nsq; version=1.0")
+			w.Write([]byte(`{"topics":[],"channels":[],"producers":[]}`))
+		}))
+		// mostly valid vectors with one or two deviations
+		channel, ct, rt, nn, nl, nt, pat, gl := "c", "1s", "1s", 1, 0, 1, "", "6"
+		if r.Intn(2) == 0 {
+			nn, nl = 0, 1
+		}
+		for k, dev := 0, r.Intn(3); k < dev; k++ {
+			switch r.Intn(8) {
+			case 0:
+				channel = ""
+			case 1:
+				ct = []string{"0s", "-1s", "1ns"}[r.Intn(3)]
+			case 2:
+				rt = []string{"0s", "-1ms", "1ns"}[r.Intn(3)]
+			case 3:
+				nn, nl = r.Intn(3), r.Intn(3)
+			case 4:
+				nt = []int{0, 0, 2}[r.Intn(3)]
+			case 5:
+				pat = []string{"^t", "", "["}[r.Intn(3)]
+			case 6:
+				gl = []string{"0", "1", "9", "10", "-2"}[r.Intn(5)]
+			case 7:
+				nt, pat = 0, "^t"
+			}
+		}
+		if pat == "[" && (nt > 0 || nl == 0) {
+			// a pattern that does not compile rejects every topic: with explicit topics the tool starts and idles without
+			// any logger (nothing to observe positively); keep it for discovery mode only, where the poll is the signal
+			pat = "^t"
+		}
+		args := []string{"--output-dir", root, "--channel=" + channel, "--http-client-connect-timeout", ct, "--http-client-request-timeout", rt,
+			"--gzip-level=" + gl, "--topic-pattern=" + pat, "--topic-refresh", "20ms", "--host-identifier", "h", "--log-level", "fatal"}
+		for k := 0; k < nn; k++ {
+			args = append(args, "--nsqd-tcp-address", src.addr)
+		}
+		for k := 0; k < nl; k++ {
+			args = append(args, "--lookupd-http-address", ln.Addr().String())
+		}
+		for k := 0; k < nt; k++ {
+			args = append(args, "--topic", fmt.Sprintf("t%d", k))
+		}
+		cmd := exec.Command(bin, args...)
+		if err := cmd.Start(); err != nil {
+			t.Fatal(err)
+		}
+		exited := make(chan error, 1)
+		go func() { exited <- cmd.Wait() }()
+		res := "hang"
+		deadline := time.After(10 * time.Second)
+	wait:
+		for {
+			select {
+			case err := <-exited:
+				res = "exit0"
+				if ee, ok := err.(*exec.ExitError); ok {
+					res = fmt.Sprintf("exit%d", ee.ExitCode())
+				}
+				break wait
+			case <-deadline:
+				break wait
+			case <-time.After(3 * time.Millisecond):
+				if src.Subscribed() || atomic.LoadInt32(&hits) > 0 {
+					res = "started"
+					break wait
+				}
+			}
+		}
+		if res == "started" || res == "hang" {
+			cmd.Process.Signal(syscall.SIGTERM)
+			select {
+			case <-exited:
+			case <-time.After(5 * time.Second):
+				cmd.Process.Kill()
+				<-exited
+			}
+		}
+		dur := func(s string) int64 { d, _ := time.ParseDuration(s); return int64(d) }
+		impl := res
+		if res == "exit1" {
+			impl = "refused"
+		}
+		out.Case(fmt.Sprintf("mn %s %d %d %d %d %d %s %s", vfHex([]byte(channel)), dur(ct), dur(rt), nn, nl, nt, vfHex([]byte(pat)), gl), impl)
+		src.Down()
+		ln.Close()
+	}
+	fmt.Printf("ORACLE-DONE main cases=%d\n", n)
 }
